@@ -333,6 +333,41 @@ CJSON_PUBLIC(cJSON *) cJSONUtils_GeneratePatches(cJSON * const from, cJSON * con
     return patches;
 }
 
+/* GEN2: positions of the per-element add / remove operations */
+static void emit_at(cJSON *patches, const char *op, const unsigned char *path, const unsigned char *suffix, const cJSON *value) { cJSON *p = cJSON_CreateObject(); (void)op; (void)path; (void)suffix; (void)value; cJSON_AddItemToArray(patches, p); }
+void bad_GEN2_add_same_index(cJSON *patches, const unsigned char *path, cJSON *to_child, size_t index)
+{
+    unsigned char buf[24];
+    sprintf((char*)buf, "%lu", (unsigned long)index);
+    for (; to_child != NULL; to_child = to_child->next) { emit_at(patches, "add", path, buf, to_child); }
+}
+void bad_GEN2_remove_forward(cJSON *patches, const unsigned char *path, cJSON *from_child, size_t index)
+{
+    unsigned char buf[24];
+    for (; from_child != NULL; (void)(from_child = from_child->next), index++)
+    {
+        sprintf((char*)buf, "%lu", (unsigned long)index);
+        emit_at(patches, "remove", path, buf, NULL);
+    }
+}
+void good_array_edits(cJSON *patches, const unsigned char *path, cJSON *from_child, cJSON *to_child, cJSON *to_tail, size_t index)
+{
+    unsigned char buf[24];
+    sprintf((char*)buf, "%lu", (unsigned long)index);
+    for (; from_child != NULL; from_child = from_child->next) { emit_at(patches, "remove", path, buf, NULL); }
+    for (; to_child != to_tail; (void)(to_child = to_child->next), index++)
+    {
+        sprintf((char*)buf, "%lu", (unsigned long)index);
+        emit_at(patches, "add", path, (to_tail == NULL) ? (const unsigned char*)"-" : buf, to_child);
+    }
+}
+void good_add_backwards(cJSON *patches, const unsigned char *path, cJSON *last, size_t index)
+{
+    unsigned char buf[24];
+    sprintf((char*)buf, "%lu", (unsigned long)index);
+    for (; last != NULL; last = last->prev) { emit_at(patches, "add", path, buf, last); }
+}
+
 /* DIG1 */
 size_t bad_DIG1_count(size_t index) { size_t length = 1; while (index > 10) { index /= 10; length++; } return length; }
 size_t good_count(size_t index) { size_t length = 1; while (index >= 10) { index /= 10; length++; } return length; }
